@@ -353,8 +353,9 @@ func checkC02(c *mc.Ctx) {
 		Bound: "11 unit kinds x pointer_field {0,1,7,50} x trailing stuffing {0,1,5,190} x {AF stuffing, 0xFF padding} x {flush by next unit, flush at EOF} x (greedy + every single chunk deviation c in 1..183 at every packet + pairs over {1,2,3,91,182,183})"})
 	c02PMTBeforePAT(c)
 	c02MultiSectionPAT(c)
+	c02Continuous(c)
 	c02Merges(c)
-	c.Ev.Require("early-psi-position-checked", "flush-at-eof", "one-byte-first-chunk", "multi-pid-merge", "eight-pids-eof-drain")
+	c.Ev.Require("early-psi-position-checked", "flush-at-eof", "one-byte-first-chunk", "multi-pid-merge", "eight-pids-eof-drain", "continuous-sections-without-straddle", "section-straddles-unit-start")
 }
 
 // c02Merges: several PIDs, all order-preserving merges; 8 PIDs sequential (EOF drain).
